@@ -21,8 +21,10 @@ structure NodeSt where
 
 structure State where
   nodes : List NodeSt := []
-  /-- some operation other than connecting happened (closes are then not judged) -/
+  /-- some operation other than the first connection attempt happened (closes are then not judged) -/
   disturbed : Bool := false
+  /-- accepted dials so far -/
+  dials : Nat := 0
 
 def init : State := {}
 
@@ -229,6 +231,10 @@ def checkToken (st : State) (i : Nat) (src tok : String) : Option String :=
     | _, _ => let _ := i; none
   else none
 
+/-- A second accepted dial means several connections: which one closed when is not judged. -/
+def dialed (st : State) (obs : String) : State :=
+  if obs = "ok" then { st with dials := st.dials + 1, disturbed := st.disturbed || st.dials ≥ 1 } else st
+
 def step (st : State) (line : String) : State × String :=
   let (line, impl) := match line.splitOn " -> " with
     | [l] => (l, none)
@@ -242,7 +248,7 @@ def step (st : State) (line : String) : State × String :=
     match (i.toNat?).filter (fun i => i = st.nodes.length && i < 3), parseConfig st args with
     | some i, some cfg =>
       let res := Node.new cfg
-      let st' := { st with nodes := st.nodes ++ [⟨cfg, res⟩], disturbed := st.disturbed || !st.nodes.isEmpty && false }
+      let st' := { st with nodes := st.nodes ++ [⟨cfg, res⟩], disturbed := st.disturbed }
       (st', match res with
         | .ok w => record i w cfg.customExecutor
         | .noTransport => "err:Other"
@@ -250,11 +256,11 @@ def step (st : State) (line : String) : State × String :=
     | _, _ => (st, "bad-op")
   | ["dial", i, j] =>
     match built st i, peerIx st j with
-    | some _, some _ => (st, echo)
+    | some _, some _ => (dialed st echo, echo)
     | _, _ => (st, "bad-op")
   | ["dialaddr", i, j, kind] =>
     match built st i, (peerIx st j).bind (fun j => parseKind st j kind) with
-    | some _, some _ => (st, echo)
+    | some _, some _ => (dialed st echo, echo)
     | _, _ => (st, "bad-op")
   | ["addknown", i, j, kinds] =>
     match built st i, peerIx st j with
